@@ -325,6 +325,7 @@ impl ProtoCtx {
                 Ok(s) => format!("ok {}", fr_hex(&s)),
                 Err(_) => "err".into(),
             },
+            ("fe_de", 2) => fr_hex(&deserialize_field_element(parse_bytes(w[1])?)),
             ("id_pair_de", 2) => {
                 let (a, b) = deserialize_identity_pair(parse_bytes(w[1])?);
                 format!("{} {}", fr_hex(&a), fr_hex(&b))
